@@ -1,10 +1,12 @@
 import Tmv.Drv.Core
 import Tmv.Model.Syncer
+import Tmv.Gen.Facts
 /-! Line-protocol driver for C14: chunk queue (`q.*`), snapshot pool (`p.*`), syncer (`s.*`). -/
 namespace Tmv.Drv.C14
 open Tmv Tmv.StateSync
 
-def recent : Nat := 10
+/-- `recentSnapshots`, from the regenerated facts -/
+def recent : Nat := Facts.c14_recentSnapshots.toNat
 
 structure EnvRow where
   h : Nat
